@@ -102,3 +102,95 @@ macro_rules! mm_instance {
         vk_harness!($name, $unwind, { mm_check(&[$($a),*], $at, &[$($b),*], $bt, &[$($c),*], &[$($e),*]); });
     };
 }
+
+// ---------------------------------------------------------------------------------------------
+// C02: derivative of matmul through a real backward pass; oracle = transpose-Jacobian applied to
+// the seed, accumulated by brute force over (batch, row, column, k).
+// ---------------------------------------------------------------------------------------------
+pub(super) fn mm_idx(base: usize, sc: usize, t: bool, r: usize, k: usize) -> usize {
+    if t { base + k * sc + r } else { base + r * sc + k }
+}
+
+pub(super) fn mm_grad_check(ad: &[usize], at: bool, bd: &[usize], bt: bool, cd: &[usize], ta: bool, tb: bool, tc: bool) {
+    let a0 = mk(ad, sym_vec(numel(ad), sym_val));
+    let b0 = mk(bd, sym_vec(numel(bd), sym_val));
+    let a = if ta { a0.tracked() } else { a0 };
+    let b = if tb { b0.tracked() } else { b0 };
+    let c = if cd.is_empty() { None } else {
+        let c0 = mk(cd, sym_vec(numel(cd), sym_val));
+        Some(if tc { c0.tracked() } else { c0 })
+    };
+    let bt_o = if ad.len() == 1 && bd.len() == 1 && !at && !bt { true } else { bt };
+    let (la, asr, asc, rows, n1) = mm_view(ad, at);
+    let (lb, bsr, bsc, _n2, cols) = mm_view(bd, bt_o);
+    let lead = bcast_dims(&la, &lb).unwrap();
+    let r = Array::matmul((&a, at), (&b, bt), c.as_ref());
+    assert!(r.is_tracked.get() == (ta || tb || (tc && c.is_some())), "C09 result tracked iff an operand (incl. the additive term) is tracked");
+    let on = r.values.len();
+    let sv = sym_vec(on, sym_val);
+    r.backward(Some(mk(&r.dimensions.clone(), sv.clone())));
+    let mut ea: Vec<Float> = vec![0.0; numel(ad)];
+    let mut eb: Vec<Float> = vec![0.0; numel(bd)];
+    let mut ec: Vec<Float> = vec![0.0; if cd.is_empty() { 1 } else { numel(cd) }];
+    let nl = numel(&lead);
+    let mut l = 0;
+    while l < nl {
+        let li = unravel(l, &lead);
+        let abase = bcast_src(&li, &lead, &la) * asr * asc;
+        let bbase = bcast_src(&li, &lead, &lb) * bsr * bsc;
+        let mut i = 0;
+        while i < rows {
+            let mut j = 0;
+            while j < cols {
+                let s = sv[(l * rows + i) * cols + j];
+                let mut k = 0;
+                while k < n1 {
+                    let ia = mm_idx(abase, asc, at, i, k);
+                    let ib = mm_idx(bbase, bsc, bt_o, k, j);
+                    ea[ia] = ea[ia] + s * b.values[ib];
+                    eb[ib] = eb[ib] + s * a.values[ia];
+                    k += 1;
+                }
+                if !cd.is_empty() {
+                    let ic = if numel(cd) == 1 { 0 } else if cd.len() >= 2 && cd[cd.len() - 2] != 1 { i * cols + j } else { j };
+                    ec[ic] = ec[ic] + s;
+                }
+                j += 1;
+            }
+            i += 1;
+        }
+        l += 1;
+    }
+    if ta {
+        let g = grad_of(&a).unwrap();
+        assert!(dims_eq(&g.dimensions, ad), "C03 gradient has the operand's dimensions");
+        let mut p = 0;
+        while p < numel(ad) { assert!(g.values[p] == ea[p], "C02 matmul: gradient of the left operand"); p += 1; }
+    } else {
+        assert!(grad_of(&a).is_none(), "C09 untracked operand receives no gradient");
+    }
+    if tb {
+        let g = grad_of(&b).unwrap();
+        assert!(dims_eq(&g.dimensions, bd), "C03 gradient has the operand's dimensions");
+        let mut p = 0;
+        while p < numel(bd) { assert!(g.values[p] == eb[p], "C02 matmul: gradient of the right operand"); p += 1; }
+    } else {
+        assert!(grad_of(&b).is_none(), "C09 untracked operand receives no gradient");
+    }
+    if let Some(cc) = &c {
+        if tc {
+            let g = grad_of(cc).unwrap();
+            assert!(dims_eq(&g.dimensions, cd), "C03 gradient has the operand's dimensions");
+            let mut p = 0;
+            while p < numel(cd) { assert!(g.values[p] == ec[p], "C02 matmul: gradient of the additive term (seed summed over rows and batches)"); p += 1; }
+        } else {
+            assert!(grad_of(cc).is_none(), "C09 untracked operand receives no gradient");
+        }
+    }
+}
+
+macro_rules! mm_grad_instance {
+    ($name:ident, $unwind:expr, [$($a:expr),*], $at:expr, [$($b:expr),*], $bt:expr, [$($c:expr),*], $ta:expr, $tb:expr, $tc:expr) => {
+        vk_harness!($name, $unwind, { mm_grad_check(&[$($a),*], $at, &[$($b),*], $bt, &[$($c),*], $ta, $tb, $tc); });
+    };
+}
